@@ -10,7 +10,7 @@ import numpy as np
 from hypothesis import strategies as st
 from hypothesis.stateful import initialize, precondition, rule
 
-from vgv import configs, envs, objs, trace
+from vgv import configs, envs, model as M, objs, trace
 from vgv.framework import Check, HarnessError, VERIF_DIR, REPO_DIR, make_machine_base, replay_log
 
 from gym_gridverse.debugging import reset_gv_debug
@@ -237,6 +237,19 @@ def ask(hs, prog):
     return json.loads(line)
 
 
+def ask_fresh(hs, prog):
+    """a worker interpreter started for this one program: nothing has happened in that process before"""
+    env = dict(os.environ)
+    env['PYTHONHASHSEED'] = str(hs)
+    env['PYTHONPATH'] = os.pathsep.join([VERIF_DIR, os.path.join(VERIF_DIR, 'vendor'), os.path.join(VERIF_DIR, '.deps'), REPO_DIR, os.path.join(REPO_DIR, 'examples')])
+    r = subprocess.run([sys.executable, '-W', 'ignore', '-m', 'vgv.worker'], input=json.dumps(prog) + '\n', stdout=subprocess.PIPE, stderr=subprocess.DEVNULL,
+                       env=env, cwd=VERIF_DIR, text=True, timeout=600)
+    lines = r.stdout.strip().splitlines()
+    if len(lines) < 2 or lines[0] != 'ready':
+        raise HarnessError(f'fresh trace worker (PYTHONHASHSEED={hs}) gave {r.stdout[:200]!r}')
+    return json.loads(lines[1])
+
+
 def strat_prog(tier):
     return st.fixed_dictionaries({'cfg': configs.config_s(), 'seed': st.integers(0, 2**31), 'ops': ops_s})
 
@@ -257,7 +270,40 @@ def oracle_prog(case, ctx):
             ctx.fail(f'{cfg["base"]} {cfg["mods"]} seed {seed}: trace differs between interpreter processes (PYTHONHASHSEED=0 here vs {hs}, debug={debug}); ops {ops[:8]}...',
                      {'kind': 'cross_process', 'reset': configs.data_of(cfg)['reset_function']['name']})
     other = trace.trace_digest(trace.run_ops(configs.build(cfg, seed + 1), ops))
-    ctx.ev.case(case, nt=(other != mine), classes=['cfg:' + cfg['base'].replace('.yaml', '')] + (['randomness_consumed'] if other != mine else []) + (['perturbed'] if cfg['mods'] else ['shipped']))
+    ctx.ev.case(case, nt=(other != mine), classes=['cfg:' + cfg['base'].replace('.yaml', '')] + (['randomness_consumed'] if other != mine else []) + (['perturbed'] if cfg['mods'] else ['shipped'])
+                + (['relative_raytracing_observed'] if cfg['mods'].get('vis', {}).get('absolute_counts') is False and any(o[0] == 'obs' for o in ops) else []))
+
+
+@st.composite
+def strat_history(draw, tier):
+    cfg = draw(configs.config_s())
+    if draw(st.integers(0, 2)) == 0:
+        # components with parameters that no shipped file uses (their code paths are the least travelled)
+        cfg = {'base': cfg['base'], 'mods': dict(cfg['mods'], obs='from_visibility',
+                                                 vis={'name': 'raytracing', 'absolute_counts': False, 'threshold': draw(st.sampled_from([0.25, 0.5, 0.75, 1.0]))})}
+    return {'cfg': cfg, 'seed': draw(st.integers(0, 2**31)), 'ops': draw(ops_s) + [['obs']],
+            'warm_seeds': draw(st.lists(st.integers(0, 2**31), min_size=1, max_size=3)), 'warm_ops': draw(ops_s) + [['obs'], ['step', 0], ['obs']]}
+
+
+def oracle_history(case, ctx):
+    """other environments of the same configuration (other seeds) are run first in this process -- whatever they leave behind in
+    module- or class-level state keyed by shapes, names or parameters is now in place -- then the program; an interpreter started
+    for the program alone must produce the same trace"""
+    cfg, seed, ops = case['cfg'], case['seed'], case['ops']
+    reset_gv_debug(None)
+    for ws in case['warm_seeds']:
+        trace.run_ops(configs.build(cfg, ws), case['warm_ops'])
+    mine = trace.trace_digest(trace.run_ops(configs.build(cfg, seed), ops))
+    hs = _hashseeds(ctx.tier)[seed % len(_hashseeds(ctx.tier))]
+    ans = ask_fresh(hs, {'cfg': cfg, 'seed': seed, 'ops': ops, 'debug': None})
+    if 'error' in ans:
+        ctx.fail(f'{cfg["base"]} {cfg["mods"]} seed {seed}: fresh worker with PYTHONHASHSEED={hs} failed: {ans["error"]}', {'kind': 'worker_error'})
+    elif ans['digest'] != mine:
+        ctx.fail(f'{cfg["base"]} {cfg["mods"]} seed {seed}: after {len(case["warm_seeds"])} other environment(s) of the same configuration were run in this process, the trace differs from '
+                 f'that of a freshly started interpreter (PYTHONHASHSEED={hs}) which runs only this program; ops {ops[:8]}...',
+                 {'kind': 'process_history', 'reset': configs.data_of(cfg)['reset_function']['name']})
+    rel = cfg['mods'].get('vis', {}).get('absolute_counts') is False
+    ctx.ev.case(case, nt=True, classes=['cfg:' + cfg['base'].replace('.yaml', '')] + (['relative_raytracing'] if rel else []) + (['perturbed'] if cfg['mods'] else ['shipped']))
 
 
 def enum_shipped(tier, shard, nshards):
@@ -321,17 +367,81 @@ def oracle_reset(case, ctx):
     ctx.ev.case(case, nt=varied, classes=['reset:' + fn] + (['resets_differ'] if varied else []))
 
 
+# ------------------------------------------------------------------ (4) reset functions through the Python API, across interpreters
+
+
+def reset_digest(fn, p, seed, n):
+    """n initial states of fn(**p) drawn from one generator seeded `seed`; parameters converted as a Python caller would pass
+    them (colours as a *set*, which is what the signatures of memory / memory_rooms ask for)"""
+    import hashlib
+    from vgv.props import c13
+    from gym_gridverse import grid_object as go
+    from gym_gridverse.envs.reset_functions import reset_function_registry as REG
+    from gym_gridverse.geometry import Shape
+    from gym_gridverse.rng import make_rng
+    kw = dict(p)
+    kw['shape'] = Shape(*p['shape'])
+    if 'layout' in kw:
+        kw['layout'] = tuple(kw['layout'])
+    if 'colors' in kw:
+        kw['colors'] = set(go.Color[c] for c in kw['colors'])
+    if fn == 'crossing':
+        kw['object_type'] = go.Wall
+    rng = make_rng(seed)
+    out = []
+    for _ in range(n):
+        try:
+            out.append(objs.canon_state(REG[fn](**kw, rng=rng)))
+        except ValueError:
+            out.append('ValueError')
+    return hashlib.sha256(json.dumps(out, sort_keys=True).encode()).hexdigest(), out
+
+
+def strat_reset_x(tier):
+    from vgv.props import c13
+    fns = ['memory', 'memory_rooms', 'memory', 'memory_rooms'] + list(c13.FUNCTIONS)
+    return st.sampled_from(fns).flatmap(lambda fn: st.fixed_dictionaries({
+        'fn': st.just(fn), 'p': c13.params_s(fn, tier), 'seed': st.integers(0, 2**31), 'n': st.integers(1, 4)}))
+
+
+def oracle_reset_x(case, ctx):
+    fn, p, seed, n = case['fn'], case['p'], case['seed'], case['n']
+    mine, states = reset_digest(fn, p, seed, n)
+    if all(s == 'ValueError' for s in states):
+        ctx.ev.count(fn + ':rejected')
+        return
+    for hs in _hashseeds(ctx.tier):
+        ans = ask(hs, {'fn': fn, 'p': p, 'seed': seed, 'n': n})
+        if 'error' in ans:
+            ctx.fail(f'{fn}({p}) seed {seed}: worker with PYTHONHASHSEED={hs} failed: {ans["error"]}', {'kind': 'worker_error'})
+        elif ans['digest'][0] != mine:
+            theirs = ans['digest'][1]
+            k = next((i for i, (a, b) in enumerate(zip(states, theirs)) if a != b), 0)
+            diff = 'ValueError vs state' if 'ValueError' in (states[k], theirs[k]) else \
+                [(q, M.cell(states[k], q), M.cell(theirs[k], q)) for q in M.positions(states[k]) if M.cell(states[k], q) != M.cell(theirs[k], q)][:4]
+            ctx.fail(f'{fn}({p}) called through the Python API with seed {seed}: initial state number {k} differs between interpreter processes '
+                     f'(PYTHONHASHSEED=0 here vs {hs}): {diff}', {'kind': 'cross_process', 'reset': fn})
+    ncol = len(p.get('colors', []))
+    ctx.ev.case(case, nt=True, classes=['reset:' + fn] + (['colour_set>=3'] if ncol >= 3 else []))
+
+
 CHECKS = [
     Check('interleaving_machine', oracle_machine, machine=machine, examples={'quick': 60, 'thorough': 200}, steps={'quick': 40, 'thorough': 60},
           shards={'quick': 6, 'thorough': 16},
           rule='2-3 live seeded environments + one unseeded, interleaved with debug toggles and draws/reseeds of numpy.random, random and the library generator; each slot replayed alone (debug on and off); globals snapshotted around every seeded op',
           required=['switches>=2', 'randomness_consumed', 'noise', 'reseeded']),
     Check('cross_process', oracle_prog, strategy=strat_prog, examples={'quick': 60, 'thorough': 200}, shards={'quick': 4, 'thorough': 16},
-          rule='generated programs on shipped and perturbed configurations: digest here (PYTHONHASHSEED=0) == digests from worker interpreters with other hash seeds and debug flags',
+          rule='generated programs on shipped and perturbed configurations: digest here (PYTHONHASHSEED=0, a process that has run many other environments) == digests from persistent worker interpreters with other hash seeds and debug flags',
           required=['randomness_consumed', 'perturbed']),
+    Check('process_history', oracle_history, strategy=strat_history, examples={'quick': 25, 'thorough': 100}, shards={'quick': 8, 'thorough': 16},
+          rule='1-3 environments of the same (perturbed) configuration with other seeds are run first in this process, then the program: trace == trace of an interpreter started for the program alone (other PYTHONHASHSEED)',
+          required=['relative_raytracing', 'perturbed']),
     Check('cross_process_shipped', oracle_prog, enumerate=enum_shipped, shards={'quick': 4, 'thorough': 8},
           rule='all 22 shipped configurations x 3 (10 thorough) seeds x a fixed 17-op program, across worker interpreters'),
     Check('reset_functions', oracle_reset, strategy=strat_reset, examples={'quick': 800, 'thorough': 3000}, shards={'quick': 4, 'thorough': 16},
           rule='8 reset functions x parameters (as in C13, beyond the shipped ones) x seeds x 1-6 resets, run twice with differently seeded global generators: identical states, globals untouched',
           required=['reset:empty', 'reset:memory_rooms', 'resets_differ']),
+    Check('cross_process_reset_functions', oracle_reset_x, strategy=strat_reset_x, examples={'quick': 60, 'thorough': 200}, shards={'quick': 4, 'thorough': 16},
+          rule='reset functions called through the Python API (colours passed as a set) x parameters (as in C13) x seeds x 1-4 states from one generator: identical in worker interpreters with other PYTHONHASHSEED values',
+          required=['reset:memory', 'reset:memory_rooms', 'colour_set>=3']),
 ]
